@@ -634,19 +634,21 @@ MANIFEST_ENTRY = {
     'technique': 'Lean 4 proof (finite Fourier analysis on ZMod m x ZMod n from root-of-unity orthogonality) over '
                  'translator-generated pipelines + correspondence of an executable model with the real functions',
     'text': ('PROVED for every finite abelian index group (every shape, parity, number of axes), every DFT kernel satisfying '
-             'root-of-unity orthogonality (itself proved from primitive roots, instance exp(-2 pi i/n)): conv is the centred circular '
-             'convolution sum_q o[q] h[p-q+c]; commutativity, bilinearity, impulse at the origin = identity, impulse at c+k = cyclic '
+             'root-of-unity orthogonality (itself proved from primitive roots; instance exp(-2 pi i/n)): conv is the centred circular '
+             'convolution sum_q o[q] h[p-q+c]; commutativity, linearity, impulse at the origin = identity, impulse at c+k = cyclic '
              'translation by k, total(image) = total(o) total(h); a list of transfer functions = their product, all-ones and the '
-             'empty list = identity in the shifted and the unshifted convention, the two conventions agree (fftshift T vs T), '
-             'transform_psf fed to the shifted convention = conv; MTF(0)=1, 0<=MTF<=1 for non-negative PSFs (triangle inequality), '
-             'MTF point-symmetric (mod shape), OTF Hermitian, MTF=|OTF|, OTF=MTF exp(i PTF) with the real Complex.arg/exp; unit DC '
-             'gain and evenness of jitter/smear/pixel/OLPF. On the m x n grid the proved sum is shown equal, sample for sample, to '
-             'the executable model double sum and the model roll index maps. TRANSLATED from the source each run: the conv, '
-             'apply_transfer_functions (both conventions, loop step, return leg), transform_psf, mtf/ptf/otf pipelines as terms '
-             'over an abstract fft2/ifft2/fftshift/ifftshift/*/real/abs/angle signature, the reference index, the frequency-grid '
-             'wiring (per-axis order, origin follows the convention, polar from cartesian, keyword table), the analytic transfer '
-             'function formulas. MODELLED AND COMPARED: the pipelines run with an O(N^2) DFT on doubles and the direct sums vs '
-             'prysm on all shapes up to the tier bound, impulses at every position, TF lists as arrays and callables.'),
+             'empty list = identity in the shifted and the unshifted convention, the two conventions agree (fftshift T vs T, whole '
+             'lists, and callables evaluated on the grid of the convention), transform_psf fed to the shifted convention = conv; '
+             'MTF(0)=1, 0<=MTF<=1 for non-negative PSFs (triangle inequality), MTF point-symmetric (mod shape), OTF Hermitian, '
+             'MTF=|OTF|, OTF=MTF exp(i PTF) with the real Complex.arg/exp; unit DC gain and evenness of jitter/smear/pixel/OLPF. '
+             'On the m x n grid the proved sums are shown equal, sample for sample, to the executable model double sums and roll '
+             'index maps. TRANSLATED from the source each run: conv, apply_transfer_functions (both conventions, loop step, return '
+             'leg), transform_psf, mtf/ptf/otf as terms over an abstract fft2/ifft2/fftshift/ifftshift/*/real/abs/angle signature, '
+             'the reference index, the frequency-grid wiring (per-axis order, origin follows the convention, polar from cartesian, '
+             'keyword table), the analytic transfer-function formulas. MODELLED AND COMPARED: the pipelines run with an O(N^2) DFT '
+             'on doubles and the direct sums vs prysm on all shapes up to the tier bound, impulses at every position, TF lists as '
+             'arrays and callables.'),
     'note': ('Trusted: scipy.fft computes the DFT sum (the contract the theorems assume, proved satisfiable); fftshift/ifftshift '
-             'semantics (compared every run); floating point (1e-9 relative). Not covered: rounding error growth; prysm.objects.'),
+             'semantics (compared with the model index maps every run); floating point (1e-9 relative). Not covered: rounding error '
+             'growth; prysm.objects; diffraction_limited_mtf and the atmospheric OTF formulas.'),
 }
